@@ -15,8 +15,9 @@ CHECKS = {
              "the PEG meaning of its rule, for all token strings; the generation step itself is run into a scratch file and compared member by "
              "member (complete for the finite quantifier over the two shipped pairs under the hash seeds used: 1 quick / 8 thorough).",
         design_ref="DESIGN.md 5/C16, 3.3",
-        note="trusted: CPython ast, the repository's pegen front end as grammar reader, our extractor+matcher; assumed: seed independence "
-             "beyond the exercised seeds rests on set-iteration determinism obligations; ruff formatting not run (comparison on ast).",
+        note="trusted: CPython ast, the repository's pegen front end as grammar reader, our extractor+matcher. Seed independence beyond the exercised "
+             "seeds: every order-sensitive consumer of a set on the generator path is inventoried (engine/setorder.py, simple type inference) and must "
+             "be in an audited table with the reason the order cannot reach the output; a new site fails. ruff formatting not run (comparison on ast).",
         technique="contract `implements(R)` per generated method discharged by structural unification + concrete regeneration replay",
     ),
 }
